@@ -37,8 +37,10 @@ RULE = ("explicit-state search: transitions set_prolog_flag(F,V), F in every fla
         "V in the flag's documented domain + {foo, 1, _, on, [foo]}; BFS from the default flags to depth 3 (quick) / 6 = closure "
         "(thorough); state = the implementation's full current_prolog_flag/2 enumeration; every history is executed from restored "
         "defaults. In every state: current_prolog_flag(F,V) with F given and V unbound / bound to the right / to a wrong value, "
-        "non-flag arguments, and behavioural probes (double_quotes: reading \"ab\"; occurs_check: X = f(X); unknown: calling an "
-        "undefined predicate). Non-trivial transition: it changes a value or is rejected.")
+        "non-flag arguments, and 16 behavioural probes (double_quotes: reading \"ab\" with read_term_from_chars and in a "
+        "clause consulted after the change; occurs_check: X = f(X) in the query, in a compiled clause body and in head unification; "
+        "unknown: an undefined predicate as the query itself, through call/1, as only / last / non-last goal of a consulted clause, "
+        "through call/N, module-qualified, inside if-then-else). Non-trivial transition: it changes a value or is rejected.")
 LEVEL_TEXT = ("explicit-state model checking of the real flag store: complete BFS to the stated depth (thorough: until no new "
               "state), model agreement checked on every transition and in every state")
 ASSUMPTIONS = ["driver transport (case texts contain no double-quoted strings and call no undefined predicates)",
@@ -63,8 +65,16 @@ def helper_text():
         return f.read()
 
 
+def dq_path():
+    d = os.path.join(pool.WORK, "agentC")
+    os.makedirs(d, exist_ok=True)
+    return os.path.join(d, "c44_dq_%d.pl" % os.getpid())
+
+
 def setup(w, tier):
-    w.consult(helper_text(), persist=True)
+    with open(dq_path(), "w") as f:
+        f.write('c44_dq_fact("ab").\n')
+    w.consult(helper_text() + "\nc44_dq_file('%s').\n" % dq_path(), persist=True)
 
 
 def transitions():
@@ -233,18 +243,29 @@ def check_inspection(state, insp):
             out.append(("flag_given_vs_enumeration %s" % nm, "given and enumerated agree", terms.show(x)))
     pr = insp[5]
     dq, oc, un = pr[1], pr[2], pr[3]
-    want_dq = {"chars": terms.mklist(["a", "b"]), "codes": terms.mklist([97, 98]), "atom": "ab"}.get(sd.get("double_quotes"))
-    if not (isinstance(dq, tuple) and dq[0] == "read" and dq[1] == want_dq):
-        out.append(("probe double_quotes=%s" % terms.show(sd.get("double_quotes")), "\"ab\" reads as %s" % terms.show(want_dq), terms.show(dq)))
-    o = outcome_of(oc)
-    want_oc = {"false": "true", "true": "false", "error": "error"}.get(sd.get("occurs_check"))
-    got_oc = "error" if isinstance(o, tuple) else o
-    if got_oc != want_oc:
-        out.append(("probe occurs_check=%s" % terms.show(sd.get("occurs_check")), "X = f(X): %s" % want_oc, terms.show(oc)))
-    o = outcome_of(un)
-    want_un = {"error": "error:existence_error(procedure)", "fail": "false", "warning": "false"}.get(sd.get("unknown"))
-    if oc_text(o) != want_un:
-        out.append(("probe unknown=%s" % terms.show(sd.get("unknown")), "calling an undefined predicate: %s" % want_un, terms.show(un)))
+    dqv = sd.get("double_quotes")
+    want_dq = {"chars": terms.mklist(["a", "b"]), "codes": terms.mklist([97, 98]), "atom": "ab"}.get(dqv)
+    if not (isinstance(dq[1], tuple) and dq[1][0] == "read" and dq[1][1] == want_dq):
+        out.append(("probe double_quotes=%s form=read_term_from_chars" % terms.show(dqv), "\"ab\" reads as %s" % terms.show(want_dq),
+                    terms.show(dq[1])))
+    if not (isinstance(dq[2], tuple) and dq[2][0] == "fact" and dq[2][1] == want_dq):
+        out.append(("probe double_quotes=%s form=consulted_clause" % terms.show(dqv),
+                    "a clause consulted after the change holds \"ab\" as %s" % terms.show(want_dq), terms.show(dq[2])))
+    ocv = sd.get("occurs_check")
+    want_oc = {"false": "true", "true": "false", "error": "error"}.get(ocv)
+    for form, x in (("query_unification", oc[1]), ("clause_body", oc[2]), ("clause_head", oc[3])):
+        o = outcome_of(x)
+        got = "error" if isinstance(o, tuple) else o
+        if got != want_oc:
+            out.append(("probe occurs_check=%s form=%s got=%s" % (terms.show(ocv), form, got), "X = f(X): %s" % want_oc, terms.show(x)))
+    unv = sd.get("unknown")
+    want_un = {"error": "error:existence_error(procedure)", "fail": "false", "warning": "false"}.get(unv)
+    for e in terms.unlist(un)[0]:
+        form, x = e[1], e[2]
+        got = oc_text(outcome_of(x))
+        if got != want_un:
+            out.append(("probe unknown=%s form=%s got=%s" % (terms.show(unv), form, got),
+                        "calling an undefined predicate (%s): %s" % (form, want_un), terms.show(x)))
     return out
 
 
@@ -285,6 +306,31 @@ class Ctx:
                     self.w.new_machine()
                 out.append((steps, r.sols[0]["I"], fin == self.s0))
         return out
+
+
+def raw_unknown_probe(ctx, hist, state):
+    """(a) an undefined predicate as the query goal itself (run_query, no call/1):
+    replay the history, run the raw query, restore. -> list of (kind, expected, observed)"""
+    w = ctx.w
+    unv = dict(state).get("unknown")
+    r1 = px.run_goals(w, ["g(c44_steps([%s],_))" % ",".join(ttext(t) for t in hist)])[0]
+    raw = w.q(["c44_undef_raw_query."], op="raw")[0]
+    r3 = px.run_goals(w, ["g((c44_restore, c44_state(S)))"])[0]
+    if r1.abn or r3.abn or r3.status != "done" or parse_state(r3.sols[0]["S"]) != ctx.s0:
+        w.new_machine()
+    if pool.abnormal(raw):
+        return [("probe unknown=%s form=query abn:%s" % (terms.show(unv), pool.abnormal_sig(raw)), "an answer", str(raw)[:200])]
+    ans = raw.get("answers", [])
+    if len(ans) == 1 and ans[0] == "false":
+        got = "false"
+    elif len(ans) == 1 and isinstance(ans[0], dict) and "error" in ans[0]:
+        got = "error:" + str(((ans[0]["error"].get("args") or [{}])[0]).get("c", "?"))
+    else:
+        got = "other"
+    want = {"error": "error:existence_error", "fail": "false", "warning": "false"}.get(unv)
+    if got != want:
+        return [("probe unknown=%s form=query got=%s" % (terms.show(unv), got), "undefined predicate as the query: %s" % want, str(ans)[:300])]
+    return []
 
 
 def state_key(st):
@@ -343,7 +389,8 @@ def run_shard(w, shard, tier):
     def inspect(h, post, insp):
         nonlocal inspected
         inspected += 1
-        probs = check_inspection(post, insp)
+        probs = check_inspection(post, insp) + raw_unknown_probe(ctx, h, post)
+        acc.extra["behavioural_probes"] += 16
         acc.case(True, "inspect:" + ("ok" if not probs else "violations"))
         done = set()
         for (kind, exp, obs) in probs:
@@ -406,7 +453,7 @@ def recheck(w, case, tier):
     steps, insp, restored = r
     post = steps[-1][2] if steps else ctx.s0
     if case["kind"] == "inspect":
-        for (kind, exp, obs) in check_inspection(post, insp):
+        for (kind, exp, obs) in check_inspection(post, insp) + raw_unknown_probe(ctx, h, post):
             if kind == case.get("vkind"):
                 return {"sig": "state " + kind, "case": case, "expected": exp, "observed": obs}
         return None
